@@ -22,7 +22,8 @@ def hexital(rows: List[Dict], members: list, cfg: Optional[Dict] = None) -> Hexi
     kw: Dict[str, Any] = {}
     if cfg.get("tf"):
         kw["timeframe"] = cfg["tf"]
-        kw["timeframe_fill"] = bool(cfg.get("fill"))
+    if cfg.get("fill"):
+        kw["timeframe_fill"] = True
     if cfg.get("ha"):
         kw["candlestick_type"] = "HA"
     if cfg.get("lifespan") is not None:
